@@ -58,3 +58,16 @@ CHECKS["C20"] = dict(
     technique="Verus contracts on extracted codec + CLI wrapper text; Kani harness; CLI twin on the real binary",
     design_ref="DESIGN.md §3 C20",
 )
+_BISYNC_NOTE = "Trusted: Verus+Z3, extractor rules (R2/R3/R5/R7/R9/R11), the ghost file-system world model (atomic rename, non-atomic copy/write only on staging names, durability only after sync_all), std::path algebra, serde_json and the tree scan by contract. Partial where stated: multi-run induction and whole-tree equality are not mechanised."
+CHECKS["C07"] = dict(
+    text="Verus proofs on extracted Archive::load (Some only for the file at that path with matching pair and version), apply (unlink only on Delete*) and run_bisync (no trusted archive ==> no unlink effect in the world log), plus a history twin on the real binary for the archive-fault scenarios.",
+    note=_BISYNC_NOTE, technique="Verus contracts against a ghost file-system world (effect log)", design_ref="DESIGN.md §3 C02/C06/C07/C08")
+CHECKS["C08"] = dict(
+    text="Effect discipline proved against the ghost world: non-atomic writes only on staging names, live paths change only by rename of a FLUSHED staging file (primitive preconditions), Archive::save publishes a flushed temp by rename, run_bisync renames the archive only after every data rename; crash points are the boundaries between primitives, covered by per-primitive frame clauses rather than enumeration.",
+    note=_BISYNC_NOTE, technique="Verus contracts against a ghost file-system world (frame + effect-order clauses)", design_ref="DESIGN.md §3 C02/C06/C07/C08")
+CHECKS["C02"] = dict(
+    text="Per-action 'no version lost' contract of apply (content + whole-world frame), the H7 side condition as a call-site obligation in run_bisync, and the no-stale-entry invariant of the recorded state; a history twin on the real binary replays concrete loss scenarios.",
+    note=_BISYNC_NOTE, technique="Verus contracts against a ghost file-system world; call-site side conditions", design_ref="DESIGN.md §3 C02/C06/C07/C08")
+CHECKS["C06"] = dict(
+    text="Exact per-action contract for what apply records, winner/loser rule of divergent edits (greater BLAKE3 at the path, loser at the conflict-copy name, both sides), record-names-only-live-paths invariant of run_bisync; convergence/idempotence as whole-tree equality is exercised by the history twin only.",
+    note=_BISYNC_NOTE, technique="Verus contracts against a ghost file-system world", design_ref="DESIGN.md §3 C02/C06/C07/C08")
